@@ -1046,3 +1046,579 @@ Example ex_counts :
   open_send s = 2 /\ open_recv s = 2 /\ length (receivers s) = 2 /\ nh s = 5 /\
   count_open SRecv (hside s) (hclosed s) (nh s) = 2.
 Proof. vm_compute. auto. Qed.
+(* ======================================================================================== *)
+(*            additions after the independent audit (hunt/audit.md, C12 4.1-4.2, C13 4.1-4.3) *)
+(* ======================================================================================== *)
+
+(* ---------- C12 4.1: the skip rule of send_nowait is safe ---------- *)
+(* While it is still queued, a receiver that send_nowait would skip (has_pending = true) has a waiter future that is
+   ALREADY cancelled: the model's ScopeCancel delivers Task.cancel() at once, so "pending cancellation" is never a
+   mere prediction in the model (props/C12.v explains which real-code situation this leaves out). *)
+Theorem ms_skip_means_future_cancelled m s e t : reach m s ->
+  In (e, t) (receivers s) -> has_pending s t = true ->
+  fut s e = FCancelled /\ snd (step s (Resume t)) = RCancelled.
+Proof.
+  intros R Hin Hp. pose proof (reach_inv m s R) as I.
+  pose proof (I_rk s I e t Hin) as Ht.
+  assert (Hf : fut s e = FCancelled).
+  { destruct (fut s e) eqn:Ef; [| |reflexivity].
+    - rewrite (has_pending_pending_false s t e I) in Hp; [discriminate|rewrite Ht; reflexivity|exact Ef].
+    - exfalso. eapply (I_rfut s I); eauto. }
+  split; [exact Hf|]. cbn [step]. rewrite Ht, Hf. reflexivity.
+Qed.
+
+(* After the skip: a receiver that is no longer in waiting_receivers, was handed nothing, while send clones remain,
+   has a cancelled waiter future: its wake-up is queued and its receive() ends with CancelledError - never a
+   silent hang. *)
+Theorem ms_skipped_receiver_is_cancelled m s t e : reach m s ->
+  phase_of s t = RecvWait e -> ~ In (e, t) (receivers s) -> slot s e = None -> open_send s > 0 ->
+  (fut s e = FCancelled \/ mustc s t = true) /\ fut s e <> FPending /\
+  snd (step s (Resume t)) = RCancelled.
+Proof.
+  intros R Hp Hn Hs Ho. pose proof (reach_inv m s R) as I.
+  assert (Hf : fut s e = FCancelled).
+  { destruct (fut s e) eqn:Ef; [| |reflexivity].
+    - exfalso. apply Hn. apply (I_rpend s I); assumption.
+    - destruct (I_eos s I t e Hp Ef Hs) as [H _]. lia. }
+  refine (conj (or_introl Hf) (conj _ _)); [congruence|].
+  cbn [step]. rewrite Hp, Hf. reflexivity.
+Qed.
+
+Example ex_skipped_receiver_hyp :
+  let s := final step (init (Fin 1)) [Recv 1 1; Resume 1; ScopeCancel 1; SendNowait 2 0 7] in
+  phase_of s 1 = RecvWait 0 /\ receivers s = [] /\ slot s 0 = None /\ open_send s = 1 /\ buffer s = [7] /\
+  snd (step s (Resume 1)) = RCancelled.
+Proof. vm_compute. auto 10. Qed.
+
+(* ---------- C12 4.2: trace-level FIFO of the two waiting queues ---------- *)
+Lemma subseq_split {A} (a1 a2 pre post : list A) e :
+  NoDup (pre ++ e :: post) -> subseq (a1 ++ e :: a2) (pre ++ e :: post) ->
+  subseq a1 pre /\ subseq a2 post.
+Proof.
+  revert a1. induction pre as [|p pre IH]; intros a1 Hn Hs; cbn in *.
+  - inversion Hn as [|? ? He Hn']; subst.
+    destruct a1 as [|z a1]; cbn in *.
+    + inversion Hs as [|? ? ? H|? ? ? H]; subst.
+      * exfalso. apply He. eapply subseq_in; [exact H|]. now left.
+      * split; [apply ss_nil|exact H].
+    + exfalso. inversion Hs as [|? ? ? H|? ? ? H]; subst.
+      * apply He. eapply subseq_in; [exact H|]. right. apply in_or_app. right. now left.
+      * apply He. eapply subseq_in; [exact H|]. apply in_or_app. right. now left.
+  - inversion Hn as [|? ? Hp Hn']; subst.
+    inversion Hs as [|? ? ? H|? ? ? H Ea]; subst.
+    + destruct (IH a1 Hn' H) as [H1 H2]. split; [apply ss_skip, H1|exact H2].
+    + destruct a1 as [|z a1]; cbn in *.
+      * injection Ea as -> ->. exfalso. apply Hp. apply in_or_app. right. now left.
+      * injection Ea as -> ->. destruct (IH a1 Hn' H) as [H1 H2]. split; [apply ss_take, H1|exact H2].
+Qed.
+
+(* senders: the entry that receive_nowait serves is the head of the queue (ms_sender_served_is_head), and the head
+   has no queued predecessor in the arrival log: every entry that started waiting earlier has already been served
+   or withdrawn *)
+Theorem ms_sender_fifo_trace m s e y r : reach m s ->
+  senders s = (e, y) :: r ->
+  forall pre post, senq s = pre ++ e :: post ->
+  (forall e', In e' pre -> ~ In e' (map fst (senders s))) /\ subseq (map fst r) post.
+Proof.
+  intros R Hs pre post Hq. pose proof (reach_inv m s R) as I.
+  pose proof (I_senq s I) as Hsub. pose proof (I_senqnd s I) as Hnd. rewrite Hs, Hq in *. cbn in Hsub.
+  destruct (subseq_split [] (map fst r) pre post e Hnd Hsub) as [_ H2].
+  split; [|exact H2]. intros e' Hin [Heq|Hr].
+  - subst e'. apply NoDup_remove_2 in Hnd. apply Hnd. apply in_or_app. now left.
+  - apply (subseq_in _ _ _ H2) in Hr. apply NoDup_remove_1 in Hnd.
+    eapply (nodup_app_disj pre post e'); eauto.
+Qed.
+
+(* how entries leave the sender queue: only by being served as the head by a receive, or withdrawn by their own
+   task's resumption *)
+Lemma sn_senders s h x : senders (fst (send_nowait s h x)) = senders s.
+Proof.
+  unfold send_nowait. destruct (hclosed s h); [reflexivity|]. destruct (Nat.eqb (open_recv s) 0); [reflexivity|].
+  destruct (pop_live s (receivers s)) as [[[e t]|] rest]; [reflexivity|].
+  destruct (xlt (length (buffer s)) (maxb s)); reflexivity.
+Qed.
+
+Lemma rn_senders s h : senders (fst (recv_nowait s h)) = senders s \/
+                       exists e y, senders s = (e, y) :: senders (fst (recv_nowait s h)).
+Proof.
+  unfold recv_nowait. destruct (hclosed s h); [now left|].
+  unfold rn_move. destruct (senders s) as [|[e y] r] eqn:Hs.
+  - left. unfold rn_pop. destruct (buffer s); [destruct (Nat.eqb (open_send s) 0)|]; cbn; auto.
+  - right. exists e, y. unfold rn_pop. cbn [buffer set_fut set_buffer set_senders].
+    destruct (buffer s ++ [y]); [destruct (Nat.eqb _ 0)|]; reflexivity.
+Qed.
+
+Theorem ms_sender_entries_leave s o :
+  let s' := fst (step s o) in
+  senders s' = senders s \/
+  (exists e x, senders s' = senders s ++ [(e, x)]) \/
+  (exists e y, senders s = (e, y) :: senders s' /\
+               ((exists t h, o = RecvNowait t h) \/ (exists t h, o = Resume t /\ phase_of s t = RecvCk h))) \/
+  (exists t e x, o = Resume t /\ phase_of s t = SendWait e x /\ senders s' = del_key e (senders s)).
+Proof.
+  destruct o; cbn [step].
+  - left. destruct (_ || _); [reflexivity|]. pose proof (sn_senders (set_nitem s (S x)) h x) as H.
+    destruct (send_nowait (set_nitem s (S x)) h x) as [s1 r]. cbn in *. destruct r; exact H.
+  - destruct (_ || _); [now left|]. destruct (rn_senders s h) as [H|(e & y & H)]; [now left|].
+    right. right. left. exists e, y. split; [exact H|]. left. eauto.
+  - left. destruct (_ || _); reflexivity.
+  - left. destruct (_ || _); reflexivity.
+  - left. unfold do_clone. break_step; reflexivity.
+  - left. unfold do_close. break_step; reflexivity.
+  - destruct (phase_of s t) eqn:Ep; [now left| | | |].
+    + destruct (mustc s t); [now left|]. pose proof (sn_senders (finish s t) h x) as H.
+      destruct (send_nowait (finish s t) h x) as [s1 r]. cbn in *.
+      destruct r; cbn; try (left; exact H). right. left. rewrite H. eauto.
+    + destruct (fut s e) eqn:Ef; [now left| |].
+      * destruct (mustc s t); [|destruct (has_key e (senders s)) eqn:Hk].
+        -- unfold drop_sender. destruct (has_key e (senders s)) eqn:Hk; cbn; [|now left].
+           right. right. right. exists t, e, x. auto.
+        -- unfold drop_sender. rewrite Hk. cbn. right. right. right. exists t, e, x. auto.
+        -- now left.
+      * unfold drop_sender. destruct (has_key e (senders s)) eqn:Hk; cbn; [|now left].
+        right. right. right. exists t, e, x. auto.
+    + destruct (mustc s t); [now left|].
+      destruct (rn_senders (finish s t) h) as [H|(e & y & H)].
+      * left. destruct (recv_nowait (finish s t) h) as [s1 r]. cbn in *. destruct r; exact H.
+      * right. right. left. exists e, y. cbn in H.
+        destruct (recv_nowait (finish s t) h) as [s1 r]. cbn in *.
+        split; [|right; eauto]. destruct r; cbn; exact H.
+    + left. destruct (fut s e); [reflexivity| |]; unfold lose; cbn; break_step; reflexivity.
+  - left. unfold task_cancel. break_step; reflexivity.
+  - left. unfold scope_cancel, task_cancel. cbn. break_step; reflexivity.
+  - now left.
+Qed.
+
+(* receivers: the entry that send_nowait serves is the first queued receiver without a pending cancellation
+   (ms_receiver_served_first_live); every entry that started waiting earlier is either no longer queued, or is
+   queued with an already cancelled future and is dropped by this very send; nothing older survives in the queue *)
+Theorem ms_receiver_fifo_trace m s e t rest : reach m s ->
+  pop_live s (receivers s) = (Some (e, t), rest) ->
+  forall pre post, renq s = pre ++ e :: post ->
+  subseq (map fst rest) post /\
+  forall e', In e' pre ->
+    ~ In e' (map fst rest) /\
+    (In e' (map fst (receivers s)) ->
+       exists t', In (e', t') (receivers s) /\ has_pending s t' = true /\ fut s e' = FCancelled).
+Proof.
+  intros R Hpl pre post Hq. pose proof (reach_inv m s R) as I.
+  pose proof (pop_live_spec s (receivers s)) as Hsp. rewrite Hpl in Hsp.
+  destruct Hsp as (pre_r & Hr & Hlive & Hpre).
+  pose proof (I_renq s I) as Hsub. pose proof (I_renqnd s I) as Hnd.
+  rewrite Hr, Hq, map_app in *. cbn [map fst] in Hsub.
+  destruct (subseq_split (map fst pre_r) (map fst rest) pre post e Hnd Hsub) as [H1 H2].
+  split; [exact H2|]. intros e' Hin.
+  assert (Hnotpost : ~ In e' post).
+  { intros Hp. apply NoDup_remove_1 in Hnd. eapply (nodup_app_disj pre post e'); eauto. }
+  assert (Hne : e' <> e).
+  { intros ->. apply NoDup_remove_2 in Hnd. apply Hnd. apply in_or_app. now left. }
+  split.
+  - intros Hx. apply Hnotpost. eapply subseq_in; eauto.
+  - intros Hx. apply in_app_or in Hx. destruct Hx as [Hx|[Hx|Hx]].
+    + apply in_map_iff in Hx. destruct Hx as ([e0 t'] & E & Hx). cbn in E. subst e0.
+      assert (Hin' : In (e', t') (receivers s)) by (rewrite Hr; apply in_or_app; now left).
+      exists t'. rewrite <- Hr. refine (conj Hin' (conj (Hpre _ _ Hx) _)).
+      apply (ms_skip_means_future_cancelled m s e' t' R Hin' (Hpre _ _ Hx)).
+    + cbn in Hx. congruence.
+    + exfalso. apply Hnotpost. eapply subseq_in; eauto.
+Qed.
+
+Example ex_receiver_fifo_hyp :
+  let s := final step (init (Fin 0)) [Recv 1 1; Resume 1; Recv 2 1; Resume 2; Recv 3 1; Resume 3; Cancel 1] in
+  pop_live s (receivers s) = (Some (1, 2), [(2, 3)]) /\ renq s = [0; 1; 2] /\ fut s 0 = FCancelled.
+Proof. vm_compute. auto. Qed.
+
+Lemma pop_live_ext s s' rs :
+  (forall e t, In (e, t) rs -> has_pending s' t = has_pending s t) -> pop_live s' rs = pop_live s rs.
+Proof.
+  induction rs as [|[e t] r IH]; cbn; intros H; [reflexivity|].
+  rewrite (H e t) by now left. rewrite IH; [reflexivity|]. intros e0 t0 H0. apply (H e0 t0). now right.
+Qed.
+
+Lemma has_pending_finish_other s t t' : t' <> t -> has_pending (finish s t) t' = has_pending s t'.
+Proof.
+  intros Hn. unfold has_pending, waiter. cbn. now rewrite !upd_other by assumption.
+Qed.
+
+Lemma sn_receivers s h x :
+  receivers (fst (send_nowait s h x)) = receivers s \/
+  receivers (fst (send_nowait s h x)) = snd (pop_live s (receivers s)).
+Proof.
+  unfold send_nowait. destruct (hclosed s h); [now left|]. destruct (Nat.eqb (open_recv s) 0); [now left|].
+  pose proof (pop_live_spec s (receivers s)) as Hsp.
+  destruct (pop_live s (receivers s)) as [[[e t]|] rest]; [right; reflexivity|].
+  destruct Hsp as [-> _]. destruct (xlt (length (buffer s)) (maxb s)); right; reflexivity.
+Qed.
+
+Lemma rn_receivers s h : receivers (fst (recv_nowait s h)) = receivers s.
+Proof.
+  unfold recv_nowait. destruct (hclosed s h); [reflexivity|].
+  unfold rn_move. destruct (senders s) as [|[e y] r].
+  - unfold rn_pop. destruct (buffer s); [destruct (Nat.eqb (open_send s) 0)|]; reflexivity.
+  - unfold rn_pop. cbn [buffer set_fut set_buffer set_senders].
+    destruct (buffer s ++ [y]); [destruct (Nat.eqb _ 0)|]; reflexivity.
+Qed.
+
+(* how entries leave the receiver queue: served or skipped by a send (pop_live), removed by their own task's
+   resumption, or all released at once by the close of the last send clone *)
+Theorem ms_receiver_entries_leave m s o : reach m s ->
+  let s' := fst (step s o) in
+  receivers s' = receivers s \/
+  (exists e t, receivers s' = receivers s ++ [(e, t)]) \/
+  (((exists t h x, o = SendNowait t h x) \/ (exists t h x, o = Resume t /\ phase_of s t = SendCk h x)) /\
+   receivers s' = snd (pop_live s (receivers s))) \/
+  (exists t e, o = Resume t /\ phase_of s t = RecvWait e /\ receivers s' = del_key e (receivers s)) \/
+  (exists h, o = Close h /\ receivers s' = [] /\ open_send s' = 0).
+Proof.
+  intros R. pose proof (reach_inv m s R) as I. destruct o; cbn [step].
+  - destruct (_ || _); [now left|].
+    destruct (sn_receivers (set_nitem s (S x)) h x) as [H|H].
+    + left. destruct (send_nowait (set_nitem s (S x)) h x) as [s1 r]. cbn in *. destruct r; exact H.
+    + right. right. left. split; [left; eauto|].
+      rewrite (pop_live_ext s (set_nitem s (S x))) in H by reflexivity.
+      destruct (send_nowait (set_nitem s (S x)) h x) as [s1 r]. cbn in *. destruct r; exact H.
+  - left. destruct (_ || _); [reflexivity|]. apply rn_receivers.
+  - left. destruct (_ || _); reflexivity.
+  - left. destruct (_ || _); reflexivity.
+  - left. unfold do_clone. break_step; reflexivity.
+  - destruct (negb _); [now left|]. destruct (hclosed s h); [now left|]. cbn [fst].
+    unfold do_close. destruct (hside s h); [|left; destruct (Nat.eqb _ 0); reflexivity].
+    destruct (Nat.eqb_spec (pred (open_send s)) 0) as [E|E]; [|now left].
+    right. right. right. right. exists h. cbn. auto.
+  - destruct (phase_of s t) eqn:Ep; [now left| | | |].
+    + destruct (mustc s t); [now left|].
+      assert (Hpl : pop_live (finish s t) (receivers s) = pop_live s (receivers s)).
+      { apply pop_live_ext. intros e0 t0 Hin. apply has_pending_finish_other. intros ->.
+        apply (I_rk s I) in Hin. congruence. }
+      destruct (sn_receivers (finish s t) h x) as [H|H].
+      * destruct (send_nowait (finish s t) h x) as [s1 r]. cbn in *.
+        destruct r; cbn; try (left; exact H).
+      * cbn [receivers finish set_scopec set_mustc set_phase_of] in H. rewrite Hpl in H.
+        right. right. left. split; [right; eauto|].
+        destruct (send_nowait (finish s t) h x) as [s1 r]. cbn in *. destruct r; cbn; exact H.
+    + left. destruct (fut s e); [reflexivity| |]; unfold drop_sender; break_step; reflexivity.
+    + destruct (mustc s t); [now left|]. pose proof (rn_receivers (finish s t) h) as H.
+      destruct (recv_nowait (finish s t) h) as [s1 r]. cbn in *.
+      destruct r; cbn; try (left; exact H). right. left. rewrite H. eauto.
+    + destruct (fut s e) eqn:Ef; [now left| |].
+      * right. right. right. left. exists t, e. refine (conj eq_refl (conj Ep _)).
+        destruct (is_cancelled FSet || mustc s t); [unfold lose; cbn; destruct (slot s e); reflexivity|].
+        destruct (slot s e); reflexivity.
+      * right. right. right. left. exists t, e. refine (conj eq_refl (conj Ep _)).
+        cbn. unfold lose. cbn. destruct (slot s e); reflexivity.
+  - left. unfold task_cancel. break_step; reflexivity.
+  - left. unfold scope_cancel, task_cancel. cbn. break_step; reflexivity.
+  - now left.
+Qed.
+
+(* ======================================================================================== *)
+(*                                  C13 audit 4.1 - 4.3                                      *)
+(* ======================================================================================== *)
+
+(* ---------- 4.1 recorded decision: blocked on one's OWN side being closed ---------- *)
+(* A task blocked in receive() on a handle that another task then closes is NOT woken: close() of the last receive
+   clone wakes the senders only (memory.py:150-164).  It stays blocked, with every send refused by
+   BrokenResourceError, until the send side closes too (then: EndOfStream).  The property text speaks about the
+   PEER side only, so this is recorded as observation O-own-close, not as a violation. *)
+Definition ex_own_close := [Recv 1 1; Resume 1; Close 1].
+Theorem ms_blocked_on_own_closed_side : exists m ops t e,
+  let s := final step (init m) ops in
+  open_recv s = 0 /\ phase_of s t = RecvWait e /\ fut s e = FPending /\ open_send s > 0 /\
+  In (e, t) (receivers s) /\
+  (* every send is refused, the receiver is not served ... *)
+  snd (step s (SendNowait 2 0 1)) = RBroken /\ snd (step s (Resume t)) = RRejected /\
+  (* ... and only the close of the send side releases it, with EndOfStream on a handle that is itself closed *)
+  snd (step (fst (step s (Close 0))) (Resume t)) = REndOfStream.
+Proof. exists (Fin 0), ex_own_close, 1, 0. vm_compute. auto 10. Qed.
+
+(* the symmetric case: a sender blocked on a handle that is then closed stays queued and its item is still
+   delivered *)
+Theorem ms_sender_blocked_on_own_closed_side : exists m ops t e x,
+  let s := final step (init m) ops in
+  open_send s = 0 /\ phase_of s t = SendWait e x /\ fut s e = FPending /\ open_recv s > 0 /\
+  snd (step s (RecvNowait 2 1)) = RItem x /\
+  snd (step (fst (step s (RecvNowait 2 1))) (Resume t)) = RDone.
+Proof. exists (Fin 0), [Send 1 0 9; Resume 1; Close 0], 1, 0, 9. vm_compute. auto 10. Qed.
+
+(* ---------- 4.2 exact characterisation of when receive / send BLOCK ---------- *)
+Lemma rn_wouldblock s h :
+  snd (recv_nowait s h) = RWouldBlock <->
+  hclosed s h = false /\ open_send s <> 0 /\ buffer s = [] /\ senders s = [].
+Proof.
+  unfold recv_nowait. destruct (hclosed s h) eqn:Hc.
+  - cbn. split; [discriminate|]. intros [H _]. discriminate.
+  - unfold rn_move. destruct (senders s) as [|[e y] r] eqn:Hs.
+    + unfold rn_pop. destruct (buffer s) as [|x b] eqn:Hb.
+      * destruct (Nat.eqb_spec (open_send s) 0) as [Ho|Ho]; cbn; split; auto; try discriminate; tauto.
+      * cbn. split; [discriminate|]. intros (_ & _ & H & _). discriminate.
+    + unfold rn_pop. cbn [buffer set_fut set_buffer set_senders].
+      destruct (buffer s ++ [y]) as [|x b] eqn:Hb; [destruct (buffer s); discriminate|].
+      cbn. split; [discriminate|]. intros (_ & _ & _ & H). discriminate.
+Qed.
+
+(* a receive attempt on an open handle waits (receive(): blocks; receive_nowait(): WouldBlock) exactly when some send
+   clone is open and there is neither a buffered item nor a blocked sender's item *)
+Theorem ms_recv_blocks_iff s o h : recv_attempt s o h -> hclosed s h = false ->
+  ((snd (step s o) = RBlocked \/ snd (step s o) = RWouldBlock) <->
+   (open_send s > 0 /\ buffer s = [] /\ senders s = [])) /\
+  (snd (step s o) = RBlocked -> exists t, o = Resume t) /\
+  (snd (step s o) = RWouldBlock -> exists t, o = RecvNowait t h).
+Proof.
+  intros [(t & -> & Hp & Hv)|(t & -> & Hp & Hm)] Hc; cbn [step].
+  - rewrite Hp, Hv. cbn [is_idle negb orb]. pose proof (rn_wouldblock s h) as H.
+    pose proof (rn_ghost s h) as G. cbv zeta in G.
+    assert (Hiff : snd (recv_nowait s h) = RWouldBlock <-> (open_send s > 0 /\ buffer s = [] /\ senders s = [])).
+    { rewrite H. split; [intros (_ & A & B & C)|intros (A & B & C)]; repeat split; auto; lia. }
+    assert (Hnb : snd (recv_nowait s h) <> RBlocked) by (intros E; rewrite E in G; tauto).
+    refine (conj _ (conj _ _)).
+    + split; [intros [X|X]; [contradiction|apply Hiff, X]|intros X; right; apply Hiff, X].
+    + intros X. contradiction.
+    + intros _. eauto.
+  - rewrite Hp, Hm. pose proof (rn_wouldblock (finish s t) h) as H.
+    pose proof (rn_ghost (finish s t) h) as G. cbv zeta in G.
+    destruct (finish_same_stream s t h) as (E1 & _ & _). rewrite E1 in H.
+    cbn [open_send buffer senders finish set_scopec set_mustc set_phase_of] in H.
+    destruct (recv_nowait (finish s t) h) as [s1 r0]. cbn [snd fst] in *.
+    assert (Hiff : r0 = RWouldBlock <-> (open_send s > 0 /\ buffer s = [] /\ senders s = [])).
+    { rewrite H. split; [intros (_ & A & B & C)|intros (A & B & C)]; repeat split; auto; lia. }
+    destruct r0; cbn [snd]; try (exfalso; tauto);
+      (refine (conj _ (conj _ _));
+       [split; [intros [X|X]; try discriminate X; apply Hiff; reflexivity
+               |intros X; first [left; reflexivity|apply Hiff in X; discriminate X]]
+       |intros X; try discriminate X; eauto
+       |intros X; try discriminate X; eauto]).
+Qed.
+
+Lemma pop_live_none_iff s rs :
+  fst (pop_live s rs) = None <-> (forall e t, In (e, t) rs -> has_pending s t = true).
+Proof.
+  induction rs as [|[e t] r IH]; cbn.
+  - split; [intros _ ? ? []|reflexivity].
+  - destruct (has_pending s t) eqn:Ep.
+    + rewrite IH. split.
+      * intros H e0 t0 [E|Hin]; [injection E as <- <-; exact Ep|eauto].
+      * intros H e0 t0 Hin. apply (H e0 t0). now right.
+    + cbn. split; [discriminate|]. intros H. rewrite (H e t) in Ep; [discriminate|now left].
+Qed.
+
+Lemma sn_wouldblock s h x :
+  snd (send_nowait s h x) = RWouldBlock <->
+  hclosed s h = false /\ open_recv s <> 0 /\ (forall e t, In (e, t) (receivers s) -> has_pending s t = true) /\
+  xlt (length (buffer s)) (maxb s) = false.
+Proof.
+  unfold send_nowait. destruct (hclosed s h) eqn:Hc.
+  - cbn. split; [discriminate|]. intros [H _]. discriminate.
+  - destruct (Nat.eqb_spec (open_recv s) 0) as [Ho|Ho].
+    + cbn. split; [discriminate|]. intros (_ & H & _). contradiction.
+    + pose proof (pop_live_none_iff s (receivers s)) as Hn.
+      destruct (pop_live s (receivers s)) as [[[e t]|] rest]; cbn [fst] in Hn.
+      * cbn. split; [discriminate|]. intros (_ & _ & H & _). apply Hn in H. discriminate.
+      * destruct (xlt (length (buffer s)) (maxb s)) eqn:Hx; cbn.
+        -- split; [discriminate|]. intros (_ & _ & _ & H). discriminate.
+        -- split; [intros _|reflexivity]. refine (conj eq_refl (conj Ho (conj _ eq_refl))). apply Hn. reflexivity.
+Qed.
+
+(* a send attempt on an open handle waits (send(): blocks; send_nowait(): WouldBlock) exactly when some receive clone is
+   open, every queued receiver has a pending cancellation (none can take the item) and the buffer is full *)
+Theorem ms_send_blocks_iff m s o h : reach m s -> send_attempt s o h -> hclosed s h = false ->
+  ((snd (step s o) = RBlocked \/ snd (step s o) = RWouldBlock) <->
+   (open_recv s > 0 /\ (forall e t, In (e, t) (receivers s) -> has_pending s t = true) /\
+    xlt (length (buffer s)) (maxb s) = false)) /\
+  (snd (step s o) = RBlocked -> exists t, o = Resume t) /\
+  (snd (step s o) = RWouldBlock -> exists t x, o = SendNowait t h x).
+Proof.
+  intros R [(t & x & -> & Hp & Hv & Hx)|(t & x & -> & Hp & Hm)] Hc; pose proof (reach_inv m s R) as I; cbn [step].
+  - rewrite Hp, Hv. cbn [is_idle negb orb]. destruct (Nat.ltb_spec x (nitem s)) as [Hlt|Hge]; [lia|].
+    pose proof (sn_wouldblock (set_nitem s (S x)) h x) as H.
+    pose proof (sn_ghost (set_nitem s (S x)) h x) as G. cbv zeta in G.
+    cbn [hclosed open_recv receivers buffer maxb set_nitem] in H.
+    assert (Hsame : forall t', has_pending (set_nitem s (S x)) t' = has_pending s t') by reflexivity.
+    destruct (send_nowait (set_nitem s (S x)) h x) as [s1 r0]. cbn [snd fst] in *.
+    assert (Hiff : r0 = RWouldBlock <->
+              (open_recv s > 0 /\ (forall e t, In (e, t) (receivers s) -> has_pending s t = true) /\
+               xlt (length (buffer s)) (maxb s) = false)).
+    { rewrite H. split; [intros (_ & A & B & C)|intros (A & B & C)]; repeat split; auto; try lia. }
+    destruct r0; cbn [snd]; try (exfalso; tauto);
+      (refine (conj _ (conj _ _));
+       [split; [intros [X|X]; try discriminate X; apply Hiff; reflexivity
+               |intros X; first [right; reflexivity|apply Hiff in X; discriminate X]]
+       |intros X; try discriminate X; eauto
+       |intros X; try discriminate X; eauto]).
+  - rewrite Hp, Hm. pose proof (sn_wouldblock (finish s t) h x) as H.
+    pose proof (sn_ghost (finish s t) h x) as G. cbv zeta in G.
+    destruct (finish_same_stream s t h) as (E1 & _ & E3). rewrite E1, E3 in H.
+    cbn [receivers buffer maxb finish set_scopec set_mustc set_phase_of] in H.
+    assert (Hsame : forall e t', In (e, t') (receivers s) -> has_pending (finish s t) t' = has_pending s t').
+    { intros e t' Hin. apply has_pending_finish_other. intros ->. apply (I_rk s I) in Hin. congruence. }
+    destruct (send_nowait (finish s t) h x) as [s1 r0]. cbn [snd fst] in *.
+    assert (Hiff : r0 = RWouldBlock <->
+              (open_recv s > 0 /\ (forall e t, In (e, t) (receivers s) -> has_pending s t = true) /\
+               xlt (length (buffer s)) (maxb s) = false)).
+    { rewrite H. split; [intros (_ & A & B & C)|intros (A & B & C)]; repeat split; auto; try lia.
+      - intros e t' Hin. rewrite <- (Hsame e t' Hin). eauto.
+      - intros e t' Hin. rewrite (Hsame e t' Hin). eauto. }
+    destruct r0; cbn [snd]; try (exfalso; tauto);
+      (refine (conj _ (conj _ _));
+       [split; [intros [X|X]; try discriminate X; apply Hiff; reflexivity
+               |intros X; first [left; reflexivity|apply Hiff in X; discriminate X]]
+       |intros X; try discriminate X; eauto
+       |intros X; try discriminate X; eauto]).
+Qed.
+
+Example ex_send_blocks_hyp :
+  let s := final step (init (Fin 0)) [Recv 1 1; Resume 1; Cancel 1; Send 2 0 5] in
+  send_attempt s (Resume 2) 0 /\ hclosed s 0 = false /\ receivers s = [(0, 1)] /\ has_pending s 1 = true /\
+  snd (step s (Resume 2)) = RBlocked.
+Proof. vm_compute. refine (conj _ (conj eq_refl (conj eq_refl (conj eq_refl eq_refl)))). right. exists 2, 5. auto. Qed.
+
+(* ---------- 4.3 trace level: after the last clone of a side closed, resuming every blocked peer once leaves nobody
+              in a wait phase on that side ---------- *)
+Lemma sn_frame_phase s h x :
+  let s1 := fst (send_nowait s h x) in
+  phase_of s1 = phase_of s /\ open_send s1 = open_send s /\ open_recv s1 = open_recv s.
+Proof.
+  unfold send_nowait. cbv zeta. destruct (hclosed s h); [auto|]. destruct (Nat.eqb (open_recv s) 0); [auto|].
+  destruct (pop_live s (receivers s)) as [[[e t]|] rest]; [cbn; auto|].
+  destruct (xlt (length (buffer s)) (maxb s)); cbn; auto.
+Qed.
+
+Lemma rn_frame_phase s h :
+  let s1 := fst (recv_nowait s h) in
+  phase_of s1 = phase_of s /\ open_send s1 = open_send s /\ open_recv s1 = open_recv s.
+Proof.
+  unfold recv_nowait. cbv zeta. destruct (hclosed s h); [auto|].
+  unfold rn_move. destruct (senders s) as [|[e y] r].
+  - unfold rn_pop. destruct (buffer s); [destruct (Nat.eqb (open_send s) 0)|]; cbn; auto.
+  - unfold rn_pop. cbn [buffer set_fut set_buffer set_senders].
+    destruct (buffer s ++ [y]); [destruct (Nat.eqb _ 0)|]; cbn; auto.
+Qed.
+
+(* Resume t touches nobody else's phase and leaves the open counts alone *)
+Lemma resume_frame s t :
+  let s' := fst (step s (Resume t)) in
+  open_send s' = open_send s /\ open_recv s' = open_recv s /\
+  (forall t', t' <> t -> phase_of s' t' = phase_of s t').
+Proof.
+  cbn [step]. destruct (phase_of s t) eqn:Ep; [cbn; auto| | | |].
+  - destruct (mustc s t).
+    + cbn. refine (conj eq_refl (conj eq_refl _)). intros t' Hn. now rewrite upd_other.
+    + pose proof (sn_frame_phase (finish s t) h x) as (H1 & H2 & H3).
+      destruct (send_nowait (finish s t) h x) as [s1 r]. cbn [fst] in *.
+      assert (Hf : forall t', t' <> t -> phase_of s1 t' = phase_of s t').
+      { intros t' Hn. rewrite H1. cbn. now rewrite upd_other. }
+      destruct r; cbn; rewrite ?H2, ?H3; refine (conj eq_refl (conj eq_refl _)); try exact Hf.
+      intros t' Hn. rewrite upd_other by assumption. apply Hf, Hn.
+  - assert (Hd : forall s0 : st, open_send (finish (drop_sender s e x) t) = open_send s /\
+                            open_recv (finish (drop_sender s e x) t) = open_recv s /\
+                            (forall t', t' <> t -> phase_of (finish (drop_sender s e x) t) t' = phase_of s t')).
+    { intros _. unfold drop_sender. destruct (has_key e (senders s)); cbn;
+        refine (conj eq_refl (conj eq_refl _)); intros t' Hn; now rewrite upd_other. }
+    destruct (fut s e); [cbn; auto| |apply (Hd s)].
+    destruct (mustc s t); [apply (Hd s)|]. destruct (has_key e (senders s)) eqn:Hk; [apply (Hd s)|].
+    cbn. refine (conj eq_refl (conj eq_refl _)). intros t' Hn. now rewrite upd_other.
+  - destruct (mustc s t).
+    + cbn. refine (conj eq_refl (conj eq_refl _)). intros t' Hn. now rewrite upd_other.
+    + pose proof (rn_frame_phase (finish s t) h) as (H1 & H2 & H3).
+      destruct (recv_nowait (finish s t) h) as [s1 r]. cbn [fst] in *.
+      assert (Hf : forall t', t' <> t -> phase_of s1 t' = phase_of s t').
+      { intros t' Hn. rewrite H1. cbn. now rewrite upd_other. }
+      destruct r; cbn; rewrite ?H2, ?H3; refine (conj eq_refl (conj eq_refl _)); try exact Hf.
+      intros t' Hn. rewrite upd_other by assumption. apply Hf, Hn.
+  - destruct (fut s e); [cbn; auto| |].
+    + destruct (is_cancelled FSet || mustc s t).
+      * unfold lose. cbn. destruct (slot s e); cbn; refine (conj eq_refl (conj eq_refl _));
+          intros t' Hn; now rewrite upd_other.
+      * destruct (slot s e); cbn; refine (conj eq_refl (conj eq_refl _)); intros t' Hn; now rewrite upd_other.
+    + cbn [is_cancelled orb fst]. unfold lose. cbn. destruct (slot s e); cbn; refine (conj eq_refl (conj eq_refl _));
+        intros t' Hn; now rewrite upd_other.
+Qed.
+
+(* with the send side fully closed, the resumed task itself is not in a receive-wait afterwards *)
+Lemma resume_not_recvwait m s t : reach m s -> open_send s = 0 ->
+  forall e, phase_of (fst (step s (Resume t))) t <> RecvWait e.
+Proof.
+  intros R Ho e'. pose proof (reach_inv m s R) as I. cbn [step].
+  destruct (phase_of s t) eqn:Ep.
+  - cbn. congruence.
+  - destruct (mustc s t); [cbn; rewrite upd_same; discriminate|].
+    pose proof (sn_frame_phase (finish s t) h x) as (H1 & _).
+    destruct (send_nowait (finish s t) h x) as [s1 r]. cbn [fst] in *.
+    destruct r; cbn; rewrite ?H1; cbn; rewrite upd_same; discriminate.
+  - destruct (fut s e); [cbn; congruence| |].
+    + destruct (mustc s t); [|destruct (has_key e (senders s))]; cbn; rewrite upd_same; discriminate.
+    + cbn. rewrite upd_same. discriminate.
+  - destruct (mustc s t); [cbn; rewrite upd_same; discriminate|].
+    pose proof (rn_frame_phase (finish s t) h) as (H1 & _).
+    pose proof (rn_wouldblock (finish s t) h) as Hw.
+    destruct (recv_nowait (finish s t) h) as [s1 r]. cbn [fst snd] in *.
+    destruct r; cbn; rewrite ?H1; cbn; try (rewrite upd_same; discriminate).
+    exfalso. destruct Hw as [Hw _]. destruct (Hw eq_refl) as (_ & A & _). apply A. exact Ho.
+  - pose proof (I_wr s I Ho t e Ep) as Hf.
+    destruct (fut s e); [congruence| |].
+    + destruct (is_cancelled FSet || mustc s t); [|destruct (slot s e)]; cbn; rewrite upd_same; discriminate.
+    + cbn. rewrite upd_same. discriminate.
+Qed.
+
+Theorem ms_last_send_close_drains_receivers m s ts : reach m s -> open_send s = 0 ->
+  (forall t e, phase_of s t = RecvWait e -> In t ts) ->
+  let s' := final step s (map Resume ts) in
+  open_send s' = 0 /\ forall t e, phase_of s' t <> RecvWait e.
+Proof.
+  revert s. induction ts as [|t0 r IH]; intros s R Ho Hall.
+  - cbn. split; [exact Ho|]. intros t e H. exact (Hall t e H).
+  - cbn [map]. change (final step s (Resume t0 :: map Resume r))
+      with (final step (fst (step s (Resume t0))) (map Resume r)).
+    pose proof (resume_frame s t0) as (H1 & _ & H3). cbv zeta in *.
+    apply IH; [apply reach_step, R|congruence|].
+    intros t e H. destruct (Nat.eq_dec t t0) as [->|Hn].
+    + exfalso. eapply (resume_not_recvwait m s t0 R Ho); eauto.
+    + rewrite H3 in H by assumption. destruct (Hall t e H) as [E|Hin]; [congruence|exact Hin].
+Qed.
+
+(* dual: with the receive side fully closed, the resumed task is not in a send-wait afterwards *)
+Lemma resume_not_sendwait m s t : reach m s -> open_recv s = 0 ->
+  forall e x, phase_of (fst (step s (Resume t))) t <> SendWait e x.
+Proof.
+  intros R Ho e' x'. pose proof (reach_inv m s R) as I. cbn [step].
+  destruct (phase_of s t) eqn:Ep.
+  - cbn. congruence.
+  - destruct (mustc s t); [cbn; rewrite upd_same; discriminate|].
+    pose proof (sn_frame_phase (finish s t) h x) as (H1 & _).
+    pose proof (sn_wouldblock (finish s t) h x) as Hw.
+    destruct (send_nowait (finish s t) h x) as [s1 r]. cbn [fst snd] in *.
+    destruct r; cbn; rewrite ?H1; cbn; try (rewrite upd_same; discriminate).
+    exfalso. destruct Hw as [Hw _]. destruct (Hw eq_refl) as (_ & A & _). apply A. exact Ho.
+  - pose proof (I_ws s I Ho t e x Ep) as Hf.
+    destruct (fut s e); [congruence| |].
+    + destruct (mustc s t); [|destruct (has_key e (senders s))]; cbn; rewrite upd_same; discriminate.
+    + cbn. rewrite upd_same. discriminate.
+  - destruct (mustc s t); [cbn; rewrite upd_same; discriminate|].
+    pose proof (rn_frame_phase (finish s t) h) as (H1 & _).
+    destruct (recv_nowait (finish s t) h) as [s1 r]. cbn [fst] in *.
+    destruct r; cbn; rewrite ?H1; cbn; rewrite upd_same; discriminate.
+  - destruct (fut s e); [cbn; congruence| |].
+    + destruct (is_cancelled FSet || mustc s t); [|destruct (slot s e)]; cbn; rewrite upd_same; discriminate.
+    + cbn. rewrite upd_same. discriminate.
+Qed.
+
+Theorem ms_last_recv_close_drains_senders m s ts : reach m s -> open_recv s = 0 ->
+  (forall t e x, phase_of s t = SendWait e x -> In t ts) ->
+  let s' := final step s (map Resume ts) in
+  open_recv s' = 0 /\ forall t e x, phase_of s' t <> SendWait e x.
+Proof.
+  revert s. induction ts as [|t0 r IH]; intros s R Ho Hall.
+  - cbn. split; [exact Ho|]. intros t e x H. exact (Hall t e x H).
+  - cbn [map]. change (final step s (Resume t0 :: map Resume r))
+      with (final step (fst (step s (Resume t0))) (map Resume r)).
+    pose proof (resume_frame s t0) as (_ & H2 & H3). cbv zeta in *.
+    apply IH; [apply reach_step, R|congruence|].
+    intros t e x H. destruct (Nat.eq_dec t t0) as [->|Hn].
+    + exfalso. eapply (resume_not_sendwait m s t0 R Ho); eauto.
+    + rewrite H3 in H by assumption. destruct (Hall t e x H) as [E|Hin]; [congruence|exact Hin].
+Qed.
+
+Example ex_close_drains_hyp :
+  let s := final step (init (Fin 0)) [Recv 1 1; Resume 1; Recv 2 1; Resume 2; Close 0] in
+  open_send s = 0 /\ phase_of s 1 = RecvWait 0 /\ phase_of s 2 = RecvWait 1 /\
+  let s' := final step s (map Resume [2; 1]) in phase_of s' 1 = Idle /\ phase_of s' 2 = Idle.
+Proof. vm_compute. auto. Qed.
